@@ -46,9 +46,16 @@ from prov.model import (
 import pydot
 
 try:
-    from html import escape
+    from html import escape as _html_escape
 except ImportError:
-    from cgi import escape
+    from cgi import escape as _html_escape
+
+
+def escape(text):
+    """Escapes text for use in Graphviz HTML-like labels. Besides the HTML
+    special characters, ']' is written as a character reference: Graphviz
+    (2.4x) rejects a table cell whose whole content is ']'."""
+    return _html_escape(text).replace("]", "&#93;")
 
 __author__ = "Trung Dong Huynh"
 __email__ = "trungdong@donggiang.com"
